@@ -202,10 +202,11 @@ class SymCtx(_Base):
     def cover(self, label):
         self.eng.res.covers.add(label)
 
-    def known(self, label, cond):
+    def known(self, label, cond, checks=None):
         """declare the witness class of a known finding (only honoured when the label is listed in
-        known_findings.json)"""
-        self.knowns.append((label, bterm(cond) if not isinstance(cond, bool) else z3.BoolVal(cond)))
+        known_findings.json); `checks` restricts it to the named checks -- a violation of any other check on
+        the same path is still reported"""
+        self.knowns.append((label, bterm(cond) if not isinstance(cond, bool) else z3.BoolVal(cond), checks))
 
     def check(self, label, cond):
         eng = self.eng
@@ -224,7 +225,7 @@ class SymCtx(_Base):
             eng.res.notes.append("unknown on obligation %s" % label)
             raise Inconclusive(label)
         # violated on this path. split by known-finding classes
-        active = [(l, t) for (l, t) in self.knowns if l in self.known_active]
+        active = [(l, t) for (l, t, cks) in self.knowns if l in self.known_active and (cks is None or label in cks)]
         new_model = None
         if active:
             r2 = eng._check(z3.Not(c), z3.Not(z3.Or(*[t for _, t in active])))
@@ -243,10 +244,10 @@ class SymCtx(_Base):
         if new_model is not None:
             eng.res.violations.append({"label": label, "witness": self._witness(new_model), "decisions": list(eng.trace)})
             eng.res.status = "violation"
-        # continue the path under the assumption that the check holds
-        eng.add(c)
-        if not eng.feasible(z3.BoolVal(True)):
-            raise PathEnd("path ends at violated check")
+        # continue: on the models of this path where the check holds, or -- if it fails on every model -- on the
+        # path as it is, so that later checks on the same path are still evaluated
+        if eng.feasible(c):
+            eng.add(c)
 
     def _witness(self, model):
         w = {}
@@ -372,7 +373,7 @@ class ConcCtx(_Base):
     def cover(self, label):
         self.covers.add(label)
 
-    def known(self, label, cond):
+    def known(self, label, cond, checks=None):
         pass
 
     def check(self, label, cond):
